@@ -59,7 +59,7 @@ def sampling_cost_guard(R, depth=0):
         if hasattr(R, "num_samples") and hasattr(R, "mesh"):
             if R.num_samples > 400:
                 return "mesh with tiny volume fraction"
-        if hasattr(R, "polygons") and hasattr(R, "_samplingData"):
+        if any(c.__name__ == "PolygonalRegion" for c in type(R).__mro__):
             g = R.polygons
             x0, y0, x1, y1 = g.bounds
             box = max((x1 - x0) * (y1 - y0), 1e-300)
